@@ -252,6 +252,83 @@ def c06() -> List[M]:
     ]
 
 
+def c07() -> List[M]:
+    EXC = "goodwe/exceptions.py"
+    return [
+        M("C07", "udp-send-keeps-fragment", P, "        self.response_future = response_future\n        self._partial_data = None\n        self._partial_missing = 0\n        payload = command.request_bytes()\n        if self._retry > 0:\n            logger.debug(\"Sending: %s - retry #%s/%s\", self.command, self._retry, self.retries)\n        else:\n            logger.debug(\"Sending: %s\", self.command)\n        self._transport.sendto(payload)",
+          "        self.response_future = response_future\n        self._partial_missing = 0\n        payload = command.request_bytes()\n        if self._retry > 0:\n            logger.debug(\"Sending: %s - retry #%s/%s\", self.command, self._retry, self.retries)\n        else:\n            logger.debug(\"Sending: %s\", self.command)\n        self._transport.sendto(payload)", "C07.R1"),
+        M("C07", "tcp-clears-after-write", P, "        self._transport.write(payload)\n", "        self._transport.write(payload)\n        self._partial_data = None\n        self._partial_missing = 0\n", "clean"),
+        M("C07", "tcp-send-keeps-missing-count", P, "        self._partial_data = None\n        self._partial_missing = 0\n        payload = command.request_bytes()\n        if self._retry > 0:\n            logger.debug(\"Sending: %s - retry #%s/%s\", self.command, self._retry, self.retries)\n        else:\n            logger.debug(\"Sending: %s\", self.command)\n        self._transport.write(payload)",
+          "        payload = command.request_bytes()\n        if self._retry > 0:\n            logger.debug(\"Sending: %s - retry #%s/%s\", self.command, self._retry, self.retries)\n        else:\n            logger.debug(\"Sending: %s\", self.command)\n        self._transport.write(payload)\n        self._partial_data = None\n        self._partial_missing = 0", "C07.R1"),
+        M("C07", "join-on-at-least-missing", P, "if self._partial_data and self._partial_missing == len(data):", "if self._partial_data and self._partial_missing <= len(data):", "C07.R2", count=2),
+        M("C07", "join-without-length-test", P, "if self._partial_data and self._partial_missing == len(data):", "if self._partial_data:", "C07.R2", count=2),
+        M("C07", "join-keeps-buffer", P, "                data = self._partial_data + data\n                self._partial_data = None\n", "                data = self._partial_data + data\n", "C07.R2", count=2),
+        M("C07", "join-wrong-order", P, "                data = self._partial_data + data\n", "                data = data + self._partial_data\n", "C07.R2", count=2),
+        M("C07", "timeout-reads-fragment", P, "            if self._timer:\n                logger.debug(\"Failed to receive response to %s in time (%ds).\", self.command, self.timeout)\n                self._timer = None\n            if self.response_future and not self.response_future.done():\n                self.response_future.cancel()",
+          "            if self._timer:\n                logger.debug(\"Failed to receive response to %s in time (%ds).\", self.command, self.timeout)\n                self._timer = None\n            if self._partial_data and self.response_future and not self.response_future.done():\n                self.response_future.set_result(self._partial_data)\n            if self.response_future and not self.response_future.done():\n                self.response_future.cancel()", "C07.R2"),
+        M("C07", "missing-count-is-total", P, "            self._partial_missing = ex.expected - ex.length\n", "            self._partial_missing = ex.expected\n", "C07.R3", count=2),
+        M("C07", "fragment-not-stored", P, "            self._partial_data = data\n", "            self._partial_data = None\n", "C07.R3", count=2),
+        M("C07", "partial-args-swapped", MB, "            raise PartialResponseException(len(data), expected_length)", "            raise PartialResponseException(expected_length, len(data))", "C07.R3", count=2),
+        M("C07", "aa55-announces-short-total", P, "            raise PartialResponseException(len(data), data[6] + 9)", "            raise PartialResponseException(len(data), data[6] + 7)", "C07.R3"),
+        M("C07", "tcp-partial-without-header", MB, "    if len(data) <= 8:", "    if len(data) <= 7:", "C07.R3"),
+        M("C07", "exception-fields-swapped", EXC, "        self.length: int = length\n        self.expected: int = expected", "        self.length: int = expected\n        self.expected: int = length", "C07.R3"),
+        M("C07", "udp-partial-rearm-fixed-delay", P, "            self._partial_missing = ex.expected - ex.length\n            self._timer = asyncio.get_running_loop().call_later(self.timeout, self._timeout_mechanism)\n        except asyncio.InvalidStateError:\n            logger.debug(\"Response already handled: %s\", data.hex())\n        except RequestRejectedException as ex:\n            logger.debug(\"Received exception response: %s\", data.hex())\n            self._retry = 0\n            if self.response_future and not self.response_future.done():\n                self.response_future.set_exception(ex)\n            self._close_transport()",
+          "            self._partial_missing = ex.expected - ex.length\n            self._timer = asyncio.get_running_loop().call_later(60, self._timeout_mechanism)\n        except asyncio.InvalidStateError:\n            logger.debug(\"Response already handled: %s\", data.hex())\n        except RequestRejectedException as ex:\n            logger.debug(\"Received exception response: %s\", data.hex())\n            self._retry = 0\n            if self.response_future and not self.response_future.done():\n                self.response_future.set_exception(ex)\n            self._close_transport()", "C07.R3"),
+        M("C07", "benign-missing-count-rewritten", P, "            self._partial_missing = ex.expected - ex.length\n", "            self._partial_missing = -(ex.length - ex.expected)\n", "clean", count=2),
+    ]
+
+
+def c08() -> List[M]:
+    return [
+        M("C08", "table-code2-text", MB, "ILLEGAL_DATA_ADDRESS: str = 'ILLEGAL DATA ADDRESS'", "ILLEGAL_DATA_ADDRESS: str = 'ILLEGAL ADDRESS'", "C08.R1"),
+        M("C08", "table-codes-shifted", MB, "    3: \"ILLEGAL DATA VALUE\",\n    4: \"SLAVE DEVICE FAILURE\",", "    4: \"ILLEGAL DATA VALUE\",\n    3: \"SLAVE DEVICE FAILURE\",", "C08.R1"),
+        M("C08", "rtu-code-byte-wrong", MB, "        failure_code = FAILURE_CODES.get(data[4], \"UNKNOWN\")\n        logger.debug(\"Response is command failure: %s.\", FAILURE_CODES.get(data[4], \"UNKNOWN\"))",
+          "        failure_code = FAILURE_CODES.get(data[3], \"UNKNOWN\")\n        logger.debug(\"Response is command failure: %s.\", FAILURE_CODES.get(data[4], \"UNKNOWN\"))", "C08.R1"),
+        M("C08", "tcp-default-reason-changed", MB, "        failure_code = FAILURE_CODES.get(data[8], \"UNKNOWN\")", "        failure_code = FAILURE_CODES.get(data[8], \"\")", "C08.R1"),
+        M("C08", "tcp-reason-is-code-number", MB, "        failure_code = FAILURE_CODES.get(data[8], \"UNKNOWN\")", "        failure_code = str(data[8])", "C08.R1"),
+        M("C08", "rejected-exception-drops-message", "goodwe/exceptions.py", "    def __init__(self, message: str = ''):\n        self.message: str = message", "    def __init__(self, message: str = ''):\n        self.message: str = ''", "C08.R1"),
+        M("C08", "udp-rejection-waits-for-timeout", P, "            self._retry = 0\n            if self.response_future and not self.response_future.done():\n                self.response_future.set_exception(ex)\n            self._close_transport()",
+          "            self._retry = 0\n            self._timer = asyncio.get_running_loop().call_later(self.timeout, self._timeout_mechanism)", "C08.R2"),
+        M("C08", "udp-rejection-cancels-instead", P, "            self._retry = 0\n            if self.response_future and not self.response_future.done():\n                self.response_future.set_exception(ex)\n            self._close_transport()",
+          "            self._retry = 0\n            self._close_transport()", "C08.R2"),
+        M("C08", "tcp-rejection-replaced", P, "            if self.response_future and not self.response_future.done():\n                self.response_future.set_exception(ex)\n            # self._close_transport()",
+          "            if self.response_future and not self.response_future.done():\n                self.response_future.set_exception(RequestRejectedException())\n            # self._close_transport()", "C08.R2"),
+        M("C08", "udp-retries-on-inverter-error", P, "        except asyncio.CancelledError:\n            if self._retry < self.retries:\n                self._retry += 1\n                if self._lock and self._lock.locked():",
+          "        except (asyncio.CancelledError, RequestRejectedException):\n            if self._retry < self.retries:\n                self._retry += 1\n                if self._lock and self._lock.locked():", "C08.R2"),
+        M("C08", "tcp-retries-on-any-exception", P, "        except (ConnectionRefusedError, TimeoutError, OSError, asyncio.TimeoutError):", "        except Exception:", "C08.R2"),
+        M("C08", "execute-converts-rejection", P, "        except (asyncio.CancelledError, OSError):\n            raise RequestFailedException(", "        except (asyncio.CancelledError, OSError, RequestRejectedException):\n            raise RequestFailedException(", "C08.R2"),
+        M("C08", "read-from-socket-swallows-rejection", INV, "        except RequestFailedException as ex:\n            self._consecutive_failures_count += 1\n            raise RequestFailedException(ex.message, self._consecutive_failures_count) from None",
+          "        except RequestRejectedException:\n            return None\n        except RequestFailedException as ex:\n            self._consecutive_failures_count += 1\n            raise RequestFailedException(ex.message, self._consecutive_failures_count) from None", "C08.R2",
+          also=[(INV, "from .exceptions import MaxRetriesException, RequestFailedException", "from .exceptions import MaxRetriesException, RequestFailedException, RequestRejectedException")]),
+        M("C08", "et-compares-with-literal-typo", ET, "            if ex.message == ILLEGAL_DATA_ADDRESS:\n                logger.debug(\"EcoModeV2 settings not supported, switching to EcoModeV1.\")", "            if ex.message == 'ILLEGAL_DATA_ADDRESS':\n                logger.debug(\"EcoModeV2 settings not supported, switching to EcoModeV1.\")", "C08.R3"),
+        M("C08", "benign-dt-compares-with-literal", DT, "            if ex.message == ILLEGAL_DATA_ADDRESS:", "            if ex.message == 'ILLEGAL DATA ADDRESS':", "clean"),
+    ]
+
+
+def c10() -> List[M]:
+    return [
+        M("C10", "udp-connect-always", P, "        if not self._transport or self._transport.is_closing():\n            self._transport, self.protocol = await asyncio.get_running_loop().create_datagram_endpoint(",
+          "        if True:\n            self._transport, self.protocol = await asyncio.get_running_loop().create_datagram_endpoint(", "C10.R1"),
+        M("C10", "tcp-connect-guard-inverted", P, "        if not self._transport or self._transport.is_closing():\n            logger.debug(\"Opening connection.\")", "        if self._transport or not self._transport.is_closing():\n            logger.debug(\"Opening connection.\")", "C10.R1"),
+        M("C10", "udp-new-transport-not-kept", P, "            self._transport, self.protocol = await asyncio.get_running_loop().create_datagram_endpoint(", "            _, self.protocol = await asyncio.get_running_loop().create_datagram_endpoint(", "C10.R1"),
+        M("C10", "close-transport-forgets-without-close", P, "            try:\n                self._transport.close()\n            except RuntimeError:\n                logger.debug(\"Failed to close transport.\")\n            self._transport = None", "            self._transport = None", "C10.R2|C10.R4"),
+        M("C10", "udp-connection-made-drops-transport", P, "        \"\"\"On connection made\"\"\"\n        self._transport = transport", "        \"\"\"On connection made\"\"\"\n        self._transport = None", "C10.R2"),
+        M("C10", "eof-forgets-transport", P, "        logger.debug(\"EOF received.\")\n        self._close_transport()", "        logger.debug(\"EOF received.\")\n        self._transport = None", "C10.R2|C10.R4"),
+        M("C10", "execute-closes-only-when-keepalive", P, "            if not protocol.keep_alive:\n                await protocol.close()", "            if protocol.keep_alive:\n                await protocol.close()", "C10.R3"),
+        M("C10", "execute-never-closes", P, "        finally:\n            if not protocol.keep_alive:\n                await protocol.close()", "        finally:\n            pass", "C10.R3|error"),
+        M("C10", "udp-close-is-noop", P, "    async def close(self):\n        self._close_transport()\n", "    async def close(self):\n        pass\n", "C10.R3"),
+        M("C10", "max-retries-keeps-transport", P, "        self._close_transport()\n        self._retry = 0\n        self.response_future = asyncio.get_running_loop().create_future()", "        self._retry = 0\n        self.response_future = asyncio.get_running_loop().create_future()", "C10.R3"),
+        M("C10", "udp-finally-keeps-socket", P, "            if self._lock and self._lock.locked():\n                self._lock.release()\n            if not self.keep_alive:\n                self._close_transport()\n\n    def _send_request", "            if self._lock and self._lock.locked():\n                self._lock.release()\n\n    def _send_request", "C10.R3"),
+        M("C10", "tcp-close-skips-when-unlocked", P, "        try:\n            self._close_transport()\n        finally:\n            if self._lock and self._lock.locked():", "        try:\n            if not self._timer:\n                self._close_transport()\n        finally:\n            if self._lock and self._lock.locked():", "C10.R3"),
+        M("C10", "close-transport-intolerant", P, "            except RuntimeError:\n                logger.debug(\"Failed to close transport.\")", "            except ValueError:\n                logger.debug(\"Failed to close transport.\")", "C10.R4"),
+        M("C10", "udp-connection-lost-keeps-transport", P, "            logger.debug(\"Socket closed.\")\n        self._close_transport()", "            logger.debug(\"Socket closed.\")", "C10.R4"),
+        M("C10", "ensure-lock-keeps-old-transport", P, "        self._running_loop = asyncio.get_event_loop()\n        self._close_transport()\n", "        self._running_loop = asyncio.get_event_loop()\n", "C10.R4"),
+        M("C10", "es-sends-directly", ES, "        response = await self._read_from_socket(self._READ_DEVICE_RUNNING_DATA)\n", "        response = ProtocolResponse((await self._protocol.send_request(self._READ_DEVICE_RUNNING_DATA)).result(), self._READ_DEVICE_RUNNING_DATA)\n", "C10.R3"),
+        M("C10", "benign-connect-guard-is-none", P, "        if not self._transport or self._transport.is_closing():\n            self._transport, self.protocol = await asyncio.get_running_loop().create_datagram_endpoint(",
+          "        if self._transport is None or self._transport.is_closing():\n            self._transport, self.protocol = await asyncio.get_running_loop().create_datagram_endpoint(", "clean"),
+    ]
+
+
 def corpus() -> List[M]:
     out: List[M] = []
     for name, fn in sorted(globals().items()):
